@@ -1,12 +1,21 @@
 /-
 C15 — "An address is accepted as valid only if it is 0, one of the reserved multicast addresses,
-or one to four octal digits each in 1..5."   (the `update()` totality part follows further down
-as the node model grows)
+or one to four octal digits each in 1..5.  update() on any node role returns normally for any
+received bytes; frames shorter than a header or with an invalid origin/destination are dropped
+without being queued or retransmitted."
+
+`C15_valid_iff` (the address predicate), `C15_drop` (discarded frames), `C15_total` /
+`C15_total_net_fuel` (`update()` returns, open system, explicit fuel bound, modulo the contracts
+`L3Contracts` on `RF24.send` / `RF24.resend`).
 -/
 import NrfProofs.Addr
+import NrfProofs.C15Drop
+import NrfProofs.C15Master
+import NrfProofs.C15Env
+import NrfProps.C07
 
 namespace Nrf.Props.C15
-open Nrf.Net Nrf.Spec Nrf.Proofs
+open Nrf Nrf.Net Nrf.Spec Nrf.Proofs Nrf.Props.C07
 
 /-- for **every** natural number (not only 16-bit values): the implementation's predicate holds
     exactly for the reserved addresses and the values of digit lists of the 781-node tree -/
@@ -36,5 +45,315 @@ theorem C15_valid_iff (a : Nat) : isValid a = true ↔ ValidAddr a := by
 /-- non-vacuity: a four-digit node is valid, and the implementation says so -/
 example : ValidAddr 0o4321 ∧ isValid 0o4321 = true :=
   ⟨Or.inr ⟨[1, 2, 3, 4], by decide, by decide⟩, by rw [C15_valid_iff]; exact Or.inr ⟨[1, 2, 3, 4], by decide, by decide⟩⟩
+
+/-! ## "Frames shorter than a header or carrying an invalid origin or destination address are
+dropped without being queued or retransmitted." -/
+
+/-- a received payload that `_net_update` discards: shorter than the 8-byte header, or with a
+    `to_node` / `from_node` that `is_address_valid` rejects -/
+def Discarded (fb : Frame) (b : Bytes) : Prop :=
+  b.length < 8 ∨ isValid (fb.unpack b).1.header.toNode = false ∨ isValid (fb.unpack b).1.header.fromNode = false
+
+/-- One iteration of the loop of `_net_update()` on a listening node (PRIM_RX set), open system,
+    **every** fuel, every world, every arrival script, every return value `rv` carried in: if the
+    payload `b` that `self._rf24.read()` returns is discarded, then — up to and including this
+    iteration — nothing was put on the air, the TX FIFO and the frame queue are as before, no
+    header id was consumed; `frame_buf` holds what `unpack` left in it (a short payload leaves it
+    untouched), and the loop goes on exactly as a fresh `_net_update()` with return value 0 would
+    (so a discarded frame cannot make an earlier frame's type the result of `update()`). -/
+theorem C15_drop (f rv : Nat) (s s1 : NetState) (b : Bytes) (hopen : s.closed = false)
+    (hcur : s.cur < s.nodes.length) (hrx : (s.w.radio s.node.rf.rid).primRx = true)
+    (hread : nexec (rfRead (f + 1)) s = (.ok (some b), s1)) (hbad : Discarded s1.node.frameBuf b) :
+    s1.w.air = s.w.air ∧
+    (s1.w.radio s.node.rf.rid).txFifo = (s.w.radio s.node.rf.rid).txFifo ∧
+    s1.node.queue = s.node.queue ∧ s1.nextId = s.nextId ∧
+    nexec (netUpdate (f + 2) rv) s
+      = nexec (netUpdate (f + 1) 0) (s1.setNode fun n => { n with frameBuf := (s1.node.frameBuf.unpack b).1 }) ∧
+    (b.length < 8 → (s1.node.frameBuf.unpack b).1 = s.node.frameBuf) := by
+  have hq := (wp_any_iff _ _ _).1 (rfRead_quiet f s hopen hcur hrx) (some b) s1 hread
+  refine ⟨hq.air, hq.txf, hq.queue, hq.nextId, ?_, ?_⟩
+  · rw [netUpdate, nexec_bind, hread]
+    simp only
+    have hc : (!(s1.node.frameBuf.unpack b).2 || !isValid (s1.node.frameBuf.unpack b).1.header.toNode
+        || !isValid (s1.node.frameBuf.unpack b).1.header.fromNode) = true := by
+      rcases hbad with h | h | h
+      · rw [Frame.unpack_ok]
+        have : decide (8 ≤ b.length) = false := by simp; omega
+        simp [this]
+      · simp [h]
+      · simp [h]
+    simp only [nexec_bind, nexec_getNode, nexec_modNode]
+    rw [if_pos hc]
+  · intro hlen
+    rw [← hq.frameBuf]
+    unfold Frame.unpack Header.unpack
+    match b, hlen with
+    | [], _ => rfl
+    | [_], _ => rfl
+    | [_, _], _ => rfl
+    | [_, _, _], _ => rfl
+    | [_, _, _, _], _ => rfl
+    | [_, _, _, _, _], _ => rfl
+    | [_, _, _, _, _, _], _ => rfl
+    | [_, _, _, _, _, _, _], _ => rfl
+    | _ :: _ :: _ :: _ :: _ :: _ :: _ :: _ :: t, h => simp at h; omega
+
+/-- non-vacuity: a 3-byte payload and a frame to the invalid address `0o6` are discarded -/
+example : Discarded {} [1, 2, 3] ∧ Discarded {} [1, 0, 6, 0, 0, 0, 0, 0] := by
+  constructor
+  · left; decide
+  · right; left
+    show isValid 6 = false
+    unfold isValid isValidGo
+    decide
+
+/-! ## "update() on any node role returns normally for any received bytes"
+
+Open system (the other nodes do not run inside the call), on top of the contracts `L3Contracts`
+(`NrfProofs/C15Contract.lean`) on the two `RF24` calls with a polling loop, `send(buf,
+send_only=True)` and `resend(send_only=True)`: from an idle transmitter they return and leave the
+transmitter idle.  Every other `RF24` call (`listen`, `auto_ack`, `open_tx_pipe`, `open_rx_pipe`,
+`set_auto_retries`, `available`, `any`, `read`, `flush_tx`, register reads and writes) is executed,
+not assumed.
+
+The sources of exceptions in the model of `update()` and why none fires:
+* `.diverge` (fuel of the fuel-recursive functions): the explicit bound `updateFuel` below;
+* `_pipe_address(addr, pipe)` → `IndexError` for `pipe > 5` and for a multicast address of more
+  than five digits: `logi2phys` on a node of the tree, for a valid destination, yields a pipe
+  ≤ 5 and an address of the tree or a reserved one (`NrfProofs/C15Addr.lean: l2p_ok`);
+* `frame.pack()` / `is_ack_type()` → `TypeError` for a `str` message type: `unpack` always stores
+  an `int` type, and every header write of `update()` keeps it an `int` (`HdrOk`);
+* `struct.pack("<h", lookup result)` / `struct.pack("<H", new address)` on the mesh master: the
+  lease table only holds ids < 256 (one header byte) and addresses < 32768 (`TabOk`, kept by
+  `set_address` / `release_address`; a leased address has at most five octal digits);
+* `message[0]`, `struct.unpack("<H", message[:2])` on the master: guarded by the length test of
+  the code itself;
+* `self._rf24.read()` on a radio without dynamic payloads / with an empty FIFO, `send` with an empty
+  or over-long payload: `TI` (shadows of DYNPD / FEATURE on; RX payloads of 1..32 bytes), and
+  fragments are cut to ≤ 24 + 8 bytes;
+* the `IndexError` of the master's `_dhcp()` retry (FINDING, fixed — see `C15_finding_dhcp_retry`). -/
+
+/-- the mesh master is not in the middle of `update()`: `_do_dhcp` is clear (it is set and
+    cleared within one `update()` call on the object whose `node_id` is 0) -/
+def DhcpIdle (s : NetState) : Prop :=
+  s.node.kind = .meshMaster → s.node.nodeId = 0 → s.node.doDhcp = false
+
+/-- fuel that suffices for one `update()` with `m` frames still to be read (RX FIFO + arrival
+    script), `tx_timeout = tt` ms, `route_timeout = rt` ms, `max_message_length ≤ Lm` bytes: one
+    unit per loop iteration / nested call; a `resend()` takes ≥ 10 µs of virtual time, so a
+    `_tx_standby(tt)` loop makes ≤ 100·tt iterations -/
+def updateFuel (Lm tt rt m : Nat) : Nat := 2 * m + 600 * tt + 3 * (Lm / 24) + 100 * rt + 67
+
+theorem C15_fuel_eq (Lm tt rt m : Nat) : bUP Lm tt rt m = updateFuel Lm tt rt m := by
+  unfold bUP bNW bAW bNU bH bNW0 bWP bFL bFR bTS updateFuel
+  omega
+
+/-- **`update()` returns**, for EVERY node role (`kind` is arbitrary: RF24NetworkRoutingOnly,
+    RF24Network, RF24MeshNoMaster, RF24Mesh as master or not), every address of the 781-node tree
+    and multicast level 0..4, every admissible prefix/suffix, every content of the RX FIFO and
+    every arrival script (payloads of 1..32 bytes — all a radio with dynamic payloads can deliver —
+    of ANY content: short, invalid addresses, any message type, any fragment sequence), every
+    lease table (ids / addresses below 2^15), every frame queue, every fault list, every other
+    radio, every clock value — from any session state `s` in which
+
+    * the node listens (`NodeListens`, the invariant of C07 that `_begin` establishes), and
+    * `TI Lm tt rt s` (`NrfProofs/C15Inv.lean`): open system, the node's radio exists, `CfgBytes`,
+      `_addr` is a node of the tree with `_net_lvl ≤ 4`, `tx_timeout = tt`, `route_timeout = rt`,
+      the driver's shadows of DYNPD / EN_DPL are on, the transmitter is idle (`TxS`), `frame_buf`
+      holds ≤ `Lm` bytes, RX FIFO entries and scripted arrivals have 1..32 bytes, the lease table
+      is bounded, and
+    * the master is not half-way through an `update()` (`DhcpIdle`),
+
+    with any fuel `f ≥ updateFuel Lm tt rt (frames still to be read)`:
+    the call ends with `.ok`, and the same three facts hold again afterwards (so a later
+    `update()` returns as well); no frame reappears (`M` does not grow). -/
+theorem C15_total (C : L3Contracts) (Lm tt rt : Nat) (hLm : 24 ≤ Lm) (s : NetState) (hl : NodeListens s)
+    (hi : TI Lm tt rt s) (hd : DhcpIdle s) (f : Nat) (hf : updateFuel Lm tt rt s.M ≤ f) :
+    ∃ r s', nexec (nodeUpdate f) s = (.ok r, s') ∧ NodeListens s' ∧ TI Lm tt rt s' ∧ DhcpIdle s' ∧
+      s'.M ≤ s.M ∧ s'.node.kind = s.node.kind := by
+  obtain ⟨p0, a1, aN, ha, hls⟩ := hl
+  have hu : UpdInv Lm tt rt s := ⟨p0, a1, aN, ha, ⟨hls, NFr.refl s⟩, hi⟩
+  have := t_nodeUpdate C hLm f s hu hd (by rw [C15_fuel_eq]; exact hf)
+  obtain ⟨r, s', h1, ⟨q0, q1, qN, ha', hl'⟩, hm, _, hk, _, hdd⟩ := (wp_no_iff _ _ _).1 this
+  exact ⟨r, s', h1, ⟨q0, q1, qN, ha', hl'.1.1⟩, hl'.2, hdd, hm, hk⟩
+
+/-- **the fuel of the model's entry point suffices**: `node.update()` of `NrfModel/Net/Api.lean`
+    (`NET_FUEL = 200000`) with the default timeouts (25 ms / 75 ms) and `max_message_length = 144`
+    returns whenever at most 88000 frames are waiting (RX FIFO + arrival script; a harness session
+    has a few dozen) -/
+theorem C15_total_net_fuel (C : L3Contracts) (s : NetState) (hl : NodeListens s) (hi : TI 144 25 75 s)
+    (hd : DhcpIdle s) (hm : s.M ≤ 88000) :
+    ∃ r s', nexec apiUpdate s = (.ok r, s') ∧ NodeListens s' ∧ TI 144 25 75 s' ∧ DhcpIdle s' ∧ s'.M ≤ s.M := by
+  obtain ⟨r, s', h1, h2, h3, h4, h5, _⟩ := C15_total C 144 25 75 (by decide) s hl hi hd F (by
+    unfold updateFuel F NET_FUEL; omega)
+  exact ⟨r, s', h1, h2, h3, h4, h5⟩
+
+/-- a concrete session for the non-vacuity example: an `RF24Mesh` master object after
+    `RF24.__init__`, with a lease in its table, a relayed address request in the RX FIFO and
+    three scripted arrivals: a 3-byte payload, a frame to the invalid address `0o6`, and the
+    NETWORK_ACK-range frame of the finding below -/
+def demo15 : NetState :=
+  { nodes := [{ kind := .meshMaster, rf := { pipes0 := [0xE7, 0xE7, 0xE7, 0xE7, 0xE7] }, a := nodeOf 0 0,
+                dhcp := [(7, 0o5)],
+                arrivals := [(0, 1, [1, 2, 3]), (5, 1, [1, 0, 6, 0, 0, 0, 0, 0]),
+                             (3000000, 1, [1, 0, 6, 0, 2, 0, 1, 0, 0x78])] }],
+    w := { radios := [{ dynpd := 0x3F, feature := 5,
+                        rxFifo := [{ pipe := 1, data := [0x0d, 0, 0, 0, 1, 0, 0xc3, 7] }] }], busyUntil := [0] },
+    closed := false }
+
+instance (b : Bytes) : Decidable (RxOk b) := by unfold RxOk; infer_instance
+
+theorem C15_demo_ti : TI 144 25 75 demo15 where
+  open_ := rfl
+  cur := by decide
+  good := C07_good_of (by unfold CfgBytes; decide)
+  tree := ⟨[], by decide, 0, by decide, by decide⟩
+  tt := rfl
+  rt := rfl
+  dyn := by decide
+  feat := by decide
+  txs := ⟨⟨Or.inl rfl, fun _ h => by cases h⟩, fun h => absurd rfl h⟩
+  msg := by decide
+  rx := by decide
+  arr := by decide
+  tab := by decide
+
+/-- **from `RF24.__init__` to a returning `update()`**: from any session state with the shape
+    `RF24.__init__` / the network constructor leave (`Base`, the invariant `TI`, `_do_dhcp` clear),
+    for every node `ds` of the tree: `_begin(val ds)` returns (C07) in a state that satisfies every
+    hypothesis of `C15_total_net_fuel`; so the `update()` that follows returns, and the node listens
+    again. -/
+theorem C15_total_after_begin (C : L3Contracts) (s : NetState) (ds : List Nat) (hn : IsNode ds)
+    (hw : s.drv.Wf) (hb : Base s.drv.d s.drv.cfg) (hc : CfgBytes s.node.cfg) (hi : TI 144 25 75 s)
+    (hd : s.node.doDhcp = false) (hm : s.M ≤ 88000) :
+    ∃ s0, nexec (begin (val ds)) s = (.ok (), s0) ∧ s0.M ≤ s.M ∧
+      ∃ r s', nexec apiUpdate s0 = (.ok r, s') ∧ NodeListens s' ∧ TI 144 25 75 s' := by
+  obtain ⟨s0, h1, h2, _⟩ := Nrf.Props.C07.C07_begin s ds hn hi.cur hw hb hc
+  have hti := ti_begin hi hn
+  obtain ⟨t0, np0, _⟩ := (wp_any_iff _ _ _).1 hti () s0 h1
+  have hd0 : DhcpIdle s0 := fun _ _ => np0.dd hd
+  obtain ⟨r, s', h3, h4, h5, _⟩ := C15_total_net_fuel C s0 h2 t0 hd0 (Nat.le_trans np0.m hm)
+  exact ⟨s0, h1, np0.m, r, s', h3, h4, h5⟩
+
+/-- non-vacuity of `C15_total_after_begin` (and through it of `C15_total` / `C15_total_net_fuel`,
+    whose hypotheses its proof establishes): the concrete master session satisfies every hypothesis
+    on the state, with 4 frames waiting -/
+example : IsNode [] ∧ demo15.drv.Wf ∧ Base demo15.drv.d demo15.drv.cfg ∧ CfgBytes demo15.node.cfg ∧
+    TI 144 25 75 demo15 ∧ demo15.node.doDhcp = false ∧ demo15.M = 4 ∧ demo15.node.kind = .meshMaster := by
+  refine ⟨by decide, ?_, ?_, by unfold CfgBytes; decide, C15_demo_ti, rfl, by decide, rfl⟩
+  · show demo15.drv.d.rid < demo15.drv.w.radios.length; decide
+  · constructor <;> decide
+
+/-! ## any history of `update()` calls and moves of the environment -/
+
+/-- the histories this part is about (calls of `NrfProps/C07.lean: Call`): `update()`, and between
+    two calls the environment scripts an arrival, drops a payload into the RX FIFO, or replaces the
+    fault list — payloads being what a radio with dynamic payloads can deliver (1..32 bytes) -/
+def UpdEnv : Call → Prop
+  | .update => True
+  | .envArrive _ _ data => RxOk data
+  | .envInject _ data => RxOk data
+  | .envFaults _ => True
+  | _ => False
+
+/-- **Every `update()` of every history returns** (induction over the history; open system, given
+    the contracts): from a listening node with the invariant `TI` (default timeouts), whatever the
+    environment puts into the RX FIFO or the arrival script and whatever fault pattern it chooses
+    between the calls — as long as fewer than 88000 frames are outstanding in total, which is what
+    `NET_FUEL` covers — the whole history runs (`Runs`: every call ends with `.ok`), and the node
+    listens and satisfies `TI` again at its end. -/
+theorem C15_history (C : L3Contracts) (cs : List Call) (s : NetState) (hl : NodeListens s)
+    (hi : TI 144 25 75 s) (hd : DhcpIdle s) (hcs : ∀ c ∈ cs, UpdEnv c) (hm : s.M + cs.length ≤ 88000) :
+    ∃ s', Runs cs s s' ∧ NodeListens s' ∧ TI 144 25 75 s' ∧ DhcpIdle s' ∧ s'.M ≤ s.M + cs.length := by
+  induction cs generalizing s with
+  | nil => exact ⟨s, Runs.nil s, hl, hi, hd, Nat.le_refl _⟩
+  | cons c cs ih =>
+    have hu := hcs c (List.mem_cons_self ..)
+    have hrest : ∀ c' ∈ cs, UpdEnv c' := fun c' h' => hcs c' (List.mem_cons_of_mem _ h')
+    have hlen : (c :: cs).length = cs.length + 1 := rfl
+    -- one step, then the rest
+    have step : ∀ s1, nexec c.run s = (.ok (), s1) → NodeListens s1 → TI 144 25 75 s1 → DhcpIdle s1 →
+        s1.M ≤ s.M + 1 →
+        ∃ s', Runs (c :: cs) s s' ∧ NodeListens s' ∧ TI 144 25 75 s' ∧ DhcpIdle s' ∧
+          s'.M ≤ s.M + (c :: cs).length := by
+      intro s1 h1 l1 t1 d1 m1
+      obtain ⟨s', r, a, b, c', m'⟩ := ih s1 l1 t1 d1 hrest (by omega)
+      exact ⟨s', Runs.cons c cs s s1 s' h1 r, a, b, c', by omega⟩
+    have hcfg : CfgBytes s.node.cfg := hi.good
+    have listens : ∀ s1, nexec c.run s = (.ok (), s1) → c.Admissible s.node.cfg → NodeListens s1 :=
+      fun s1 h1 ha => (C07_api c s s1 (Or.inl hi.open_) hl hcfg ha h1).1
+    cases c with
+    | update =>
+      obtain ⟨r, s1, h1, l1, t1, d1, m1⟩ := C15_total_net_fuel C s hl hi hd (by omega)
+      have h1' : nexec (Call.run .update) s = (.ok (), s1) := by
+        show nexec (apiUpdate >>= fun _ => pure ()) s = _
+        rw [nexec_bind, h1]
+        rfl
+      exact step s1 h1' l1 t1 d1 (by omega)
+    | envArrive due pipe data =>
+      have h1 : nexec (Call.run (.envArrive due pipe data)) s
+          = (.ok (), s.setNode fun n => { n with arrivals := n.arrivals ++ [(due, pipe, data)] }) := rfl
+      obtain ⟨t1, m1, n1⟩ := hi.arrive due pipe data hu
+      refine step _ h1 (listens _ h1 trivial) t1 ?_ (by omega)
+      intro hk hz
+      rw [n1] at hk hz ⊢
+      exact hd hk hz
+    | envInject pipe data =>
+      have h1 : nexec (Call.run (.envInject pipe data)) s
+          = (.ok (), { s with w := s.w.inject s.node.rf.rid pipe data }) := rfl
+      obtain ⟨t1, m1⟩ := hi.inject pipe data hu
+      exact step _ h1 (listens _ h1 trivial) t1 hd m1
+    | envFaults l =>
+      have h1 : nexec (Call.run (.envFaults l)) s = (.ok (), { s with w := { s.w with faults := l } }) := rfl
+      obtain ⟨t1, m1⟩ := hi.faults l
+      exact step _ h1 (listens _ h1 trivial) t1 hd (by rw [m1]; omega)
+    | _ => exact absurd hu (by simp [UpdEnv])
+
+/-- non-vacuity: the history "a 3-byte payload arrives, update(), a frame for `0o6` is injected,
+    update()" is one of them, and `demo15`'s outstanding frames are far below the bound -/
+example : (∀ c ∈ [Call.envArrive 0 1 [1, 2, 3], .update, .envInject 1 [1, 0, 6, 0, 0, 0, 0, 0], .update], UpdEnv c) ∧
+    demo15.M + 4 ≤ 88000 := by
+  refine ⟨?_, by decide⟩
+  intro c hc
+  simp only [List.mem_cons, List.not_mem_nil, or_false] at hc
+  rcases hc with rfl | rfl | rfl | rfl
+  · show RxOk _; decide
+  · trivial
+  · show RxOk _; decide
+  · trivial
+
+/-! ## FINDING (fixed): the master's `_dhcp()` retry raised `IndexError` out of `update()`
+
+`_dhcp()` answered a relayed MESH_ADDR_REQUEST with `if not self._write(to, TX_NORMAL):
+self._write(self.frame_buf.header.to_node, TX_NORMAL)`.  MESH_ADDR_RESPONSE (128) is in the
+NETWORK_ACK range, so the first `_write` waits for a NETWORK_ACK and runs `_net_update()`, which
+`unpack`s every received payload into `frame_buf` *before* validating it.  After a time-out the retry
+therefore transmitted whatever frame arrived last, to its `to_node` — for a discarded frame an
+invalid address: `_write(6, TX_NORMAL)` → `_logi_2_phys` → `_pipe_address(6, 5)` →
+`address_suffix[6]` → `IndexError` out of `update()`, with the radio left in TX mode.
+Witness (replayed on the real code; in the generator of `harness/props/c15.py`):
+`net 2 0 new m master 0 0 ; new n5 network 1 5 ; env inject 0 1 0d0000000100c307 ;
+ env arrive m 3000000 1 010006000200010078 ; m update`.
+Fixed in the repository (`rf24_mesh.py: _dhcp`, the response is packed before the first `_write`
+and restored before the retry) and in the model (`NrfModel/Net/Node.lean: masterDhcp`);
+`C15_total` is about the fixed code. -/
+
+/-- the crux on the model: the discarded frame's destination `0o6` is not a valid address, the
+    master routes it to "its child 6, pipe 5", and that pipe address does not exist -/
+theorem C15_finding_dhcp_retry :
+    isValid 6 = false ∧ logi2phys (nodeOf 0 0) 6 TX_NORMAL = (6, 5, false) ∧
+    pipeAddress {} 6 5 = .error .indexError := by
+  refine ⟨by unfold isValid isValidGo; decide, by decide, ?_⟩
+  unfold pipeAddress
+  simp only []
+  unfold pipeAddrLoop
+  rfl
+
+/-- non-vacuity: the witness payload is one a radio can deliver, and `_net_update` discards it -/
+example : RxOk [1, 0, 6, 0, 2, 0, 1, 0, 0x78] ∧ Discarded {} [1, 0, 6, 0, 2, 0, 1, 0, 0x78] := by
+  refine ⟨by decide, Or.inr (Or.inl ?_)⟩
+  show isValid 6 = false
+  unfold isValid isValidGo
+  decide
 
 end Nrf.Props.C15
